@@ -1214,7 +1214,8 @@ impl<'a> BenchContext<'a> {
                     sum = sum.saturating_add(sample_count);
                 }
 
-                (sum / median_samples.len() as u128) as MaxCountUInt
+                sum.checked_div(median_samples.len() as u128).unwrap_or_default()
+                    as MaxCountUInt
             };
 
             Some(StatsSet {
@@ -1258,7 +1259,10 @@ impl<'a> BenchContext<'a> {
             alloc_info.tallies.add_to_total(&mut alloc_total_tallies);
         }
 
-        let sample_size = f64::from(sample_size);
+        // Use a divisor of at least 1 so that no samples produce zeros instead
+        // of `0.0 / 0.0`.
+        let sample_size = f64::from(sample_size.max(1));
+        let total_count_f64 = total_count.max(1) as f64;
         Stats {
             sample_count: sample_count as u32,
             iter_count: total_count,
@@ -1331,8 +1335,8 @@ impl<'a> BenchContext<'a> {
                     }
                 },
                 mean: AllocTally {
-                    count: alloc_total_max_count as f64 / total_count as f64,
-                    size: alloc_total_max_size as f64 / total_count as f64,
+                    count: alloc_total_max_count as f64 / total_count_f64,
+                    size: alloc_total_max_size as f64 / total_count_f64,
                 },
             }
             .transpose(),
@@ -1389,8 +1393,8 @@ impl<'a> BenchContext<'a> {
                         mean: {
                             let tally = alloc_total_tallies.get(op);
                             AllocTally {
-                                count: tally.count as f64 / total_count as f64,
-                                size: tally.size as f64 / total_count as f64,
+                                count: tally.count as f64 / total_count_f64,
+                                size: tally.size as f64 / total_count_f64,
                             }
                         },
                     })
